@@ -363,7 +363,31 @@ theorem implicit_parents (o : ConvOpts) (t t' : List TNode) (e : CEntry) (h : ad
               subst h
               exact ⟨n, List.mem_append_left _ hn, hnp, hnd⟩
 
+/-! ### layout facts the models rely on, re-checked against `include/tar/format.h` on every run
+(`Sqfs/Generated/Consts.lean` is regenerated from the working tree; a changed offset or width breaks this build) -/
+section layout
+open Sqfs.Consts
+example : tarSizeofHeader = 512 ∧ tarRecordSize = 512 := by decide
+example : tarOffName = 0 ∧ tarSizeofName = 100 ∧ tarOffMode = 100 ∧ tarOffUid = 108 ∧ tarOffGid = 116 ∧ tarOffSize = 124 ∧
+    tarOffMtime = 136 ∧ tarOffChksum = 148 ∧ tarSizeofChksum = 8 ∧ tarOffTypeflag = 156 ∧ tarOffLinkname = 157 ∧
+    tarSizeofLinkname = 100 ∧ tarOffMagic = 257 ∧ tarOffVersion = 263 ∧ tarOffUname = 265 ∧ tarOffGname = 297 ∧
+    tarOffDevmajor = 329 ∧ tarOffDevminor = 337 ∧ tarOffPrefix = 345 ∧ tarSizeofPrefix = 155 ∧ tarSizeofNum8 = 8 ∧
+    tarSizeofNum12 = 12 := by decide
+example : tarOffGnuSparse = 386 ∧ tarSizeofOldSparse = 24 ∧ tarOffGnuIsExtended = 482 ∧ tarOffGnuRealsize = 483 ∧
+    tarSizeofOldSparseRecord = 512 ∧ tarOffOldSparseRecIsExtended = 504 := by decide
+example : tarMaxSymlinkLen = 65536 ∧ tarMaxPathLen = 65536 ∧ tarMaxPaxLen = 65536 ∧ tarMaxSparseEnt = 65536 := by decide
+set_option maxRecDepth 100000 in
+/-- the model's raw header has the struct's size -/
+example : (rawHeader (field 100 []) 0 0 0 0 0 48 (zeros 100) 0 0).length = tarSizeofHeader := by decide
+end layout
+
 /-! ### non-vacuity -/
+example : WellFormedMap 0 [(0, 3), (3, 0), (512, 2), (1000, 0)] 1000 := by simp [WellFormedMap]
+example : (expand [(2, 3), (8, 2)] 12 5 [1, 2, 3, 4, 5, 9, 9]).out = [0, 0, 1, 2, 3, 0, 0, 0, 4, 5, 0, 0] := by decide
+example : prefixDigitLen 9 = 2 ∧ prefixDigitLen 98 = 3 ∧ prefixDigitLen 9996 = 5 := by decide
+example : clampMtime (-5) = 0 ∧ clampMtime 8589934592 = 4294967295 := by decide
+example : processEntry { rootBecomes := some (ascii "r") } ⟨ascii "r/x", 0o100644, 0, 0, 0, false, none, 0, 0⟩
+    = .node ⟨ascii "x", 0o100644, 0, 0, 0, false, none, 0, 0⟩ := by decide
 
 example : readNumber (writeNumber 420 8) = some 420 := by decide
 example : writeNumber 2097152 8 = [49, 48, 48, 48, 48, 48, 48, 48] := by decide      -- 8 digits, no terminator
